@@ -17,7 +17,9 @@ CONSTANTS Systems,       \* set of system ids
           HashCands,     \* candidate public inputs for Verify, relative to the proof's own hash
           MaxProofs, MaxSteps
 
-CongruentCands == {"own", "own+r", "own+2r", "own+4r"}      \* representatives of the same field element
+\* representatives of the same field element: the public input is an integer (math/big, possibly negative, possibly wider than 256 bits)
+CongruentCands == {"own", "own+r", "own+2r", "own+4r", "own-r", "own-7r", "own+r*2^70"}
+\* NOT congruent (r is odd and the hash is not 0): the negated hash and its representatives
 
 VARIABLES proofs,    \* sequence of issued tokens [sys, batch]
           nbatch, hist
